@@ -336,9 +336,7 @@ theorem C09_router_eq_spec (o : RouterObs) (t : Truth) (wt : WfTruth t) (c : o.a
         rw [h1, h5, C09_acl_eq_spec o.acl t c]
       · simp only [hop, if_false]
 
-def FirewallObs.CfgOk (o : FirewallObs) : Prop := o.ips.Nodup ∧ o.wcs.Nodup ∧ o.ports.Nodup ∧ o.protos.Nodup
-
-theorem C09_firewall_eq_spec (o : FirewallObs) (t : Truth) (wt : WfTruth t) (c : o.CfgOk) : o.val (describe t) = o.spec t := by
+theorem C09_firewall_eq_spec (o : FirewallObs) (t : Truth) (wt : WfTruth t) : o.val (describe t) = o.spec t := by
   unfold FirewallObs.val FirewallObs.spec
   simp only [describe_node]
   cases hn : t.node o.wh with
@@ -349,19 +347,18 @@ theorem C09_firewall_eq_spec (o : FirewallObs) (t : Truth) (wt : WfTruth t) (c :
     · simp only [hop, if_true]
       have h5 := users_eq_spec n (wt n (Truth.node_mem hn))
       have ha : (fun a => (o.acl a).val (describe t)) = (fun a => (o.acl a).spec t) := by
-        funext a; exact C09_acl_eq_spec (o.acl a) t c
+        funext a; exact C09_acl_eq_spec (o.acl a) t (o.acl_cfgOk a)
       rw [h5, ha, C09_port_eq_spec, C09_port_eq_spec, C09_port_eq_spec]
     · simp only [hop, if_false]
 
 mutual
-/-- what C09 needs of an observation object: folder memories coherent with the simulator, ACL lists without repeated entries -/
+/-- what C09 needs of an observation object: folder memories coherent with the simulator, ACL id tables built by the constructor (no repeated entry) -/
 def Obs.Faithful (t : Truth) : Obs → Prop
   | .folder o => o.Coherent t
   | .acl o => o.CfgOk
   | .host o => o.Coherent t
   | .router o => o.acl.CfgOk
-  | .firewall o => o.CfgOk
-  | .nodes o => (∀ h ∈ o.hosts, h.Coherent t) ∧ (∀ r ∈ o.routers, r.acl.CfgOk) ∧ (∀ f ∈ o.firewalls, f.CfgOk)
+  | .nodes o => (∀ h ∈ o.hosts, h.Coherent t) ∧ (∀ r ∈ o.routers, r.acl.CfgOk)
   | .nested cs => Obs.FaithfulL t cs
   | _ => True
 def Obs.FaithfulL (t : Truth) : List (String × Obs) → Prop
@@ -388,12 +385,12 @@ theorem C09_observe_eq_spec (capture : Bool) (t : Truth) (wt : WfTruth t) :
   | .acl o, c => C09_acl_eq_spec o t c
   | .host o, c => C09_host_eq_spec capture o t wt c
   | .router o, c => C09_router_eq_spec o t wt c
-  | .firewall o, c => C09_firewall_eq_spec o t wt c
+  | .firewall o, _ => C09_firewall_eq_spec o t wt
   | .nodes o, c => by
     simp only [Obs.val, Obs.spec, NodesObs.val, NodesObs.spec]
     rw [List.map_congr_left (fun x hx => C09_host_eq_spec capture x t wt (c.1 x hx)),
-        List.map_congr_left (fun x hx => C09_router_eq_spec x t wt (c.2.1 x hx)),
-        List.map_congr_left (fun x hx => C09_firewall_eq_spec x t wt (c.2.2 x hx))]
+        List.map_congr_left (fun x hx => C09_router_eq_spec x t wt (c.2 x hx)),
+        List.map_congr_left (fun x _ => C09_firewall_eq_spec x t wt)]
   | .nested cs, c => by
     simp only [Obs.val, Obs.spec]
     rw [C09_nested_eq_spec capture t wt cs c]
